@@ -50,13 +50,13 @@ def main():
     lock = threading.Lock()
 
     def worker(k):
-        out = f'/tmp/xsg-mx-{k}-out'
+        out = f'/tmp/xsg-mx-{os.getpid()}-{k}-out'
         while True:
             try:
                 kind, name, patch = q.get_nowait()
             except queue.Empty:
                 return
-            wt = f'/tmp/xsg-mx-{k}-wt'
+            wt = f'/tmp/xsg-mx-{os.getpid()}-{k}-wt'
             sh(f'git -C /repo worktree remove --force {wt}; rm -rf {wt}')
             sh(f'git -C /repo worktree add -q --detach {wt} HEAD')
             try:
@@ -107,7 +107,7 @@ def main():
     for t in ts:
         t.join()
     for k in range(workers):
-        shutil.rmtree(f'/tmp/xsg-mx-{k}-out', ignore_errors=True)
+        shutil.rmtree(f'/tmp/xsg-mx-{os.getpid()}-{k}-out', ignore_errors=True)
     sh('git -C /repo worktree prune')
     if '--mutants' in args:
         rows = [[name, tests, res] for (kind, name), (tests, res) in sorted(results.items()) if kind == 'mutant']
